@@ -306,6 +306,24 @@ def fixed_pairs(ctx, home):
     cases.append(("rename-and-number-to-string", local(ren_old % ("", ""), ren_new % ("int", "", "", "")), "accept-warning"))
     cases.append(("enum-renamed-only", local(ren_old % (en_old, "    m: Mood\n"), ren_new % ("string", "", en_new % ", idle", "    m: State\n")), "accept-clean"))
     cases.append(("enum-renamed-and-value-removed", local(ren_old % (en_old, "    m: Mood\n"), ren_new % ("string", "", en_new % "", "    m: State\n")), "reject"))
+    # a closed alias of a generic definition keeps its name while the type argument written in the alias definition changes (documented as incompatible);
+    # the alias is used by its name only - as a step, through another alias, as a field, as a vector item - so nothing but the alias pair itself shows the change
+    gen_rec = "'Image<T>': !record\n  fields:\n    data: T*\n    width: int\n"
+    gen_arr = "'Image<T>': 'T[]'\n"
+    gen_box = "'Image<T>': !record\n  fields:\n    content: T\n"
+    uses = {"step": "P: !protocol\n  sequence:\n    img: ImageFloat\n", "stream-through-alias": "StreamItem: ImageFloat\nP: !protocol\n  sequence:\n    data: !stream\n      items: StreamItem\n",
+            "field": "Holder: !record\n  fields:\n    img: ImageFloat\n    n: int\nP: !protocol\n  sequence:\n    h: Holder\n", "vector-item": "P: !protocol\n  sequence:\n    imgs: ImageFloat*\n",
+            "defined-before-generic": None}
+    for gname, gen, (a, b) in (("record", gen_rec, ("float", "double")), ("array-alias", gen_arr, ("float", "complexdouble")), ("box", gen_box, ("int", "'int*'")), ("box-to-string", gen_box, ("int", "string"))):
+        # (docs/cpp/evolution.md lists "changing the type arguments to a generic type" among the breaking changes without exception, int -> string included)
+        for uname, use in uses.items():
+            def text(arg):
+                if use is None:
+                    return "ImageFloat: Image<%s>\n" % arg.strip("'") + uses["step"] + gen
+                return use + gen + "ImageFloat: Image<%s>\n" % arg.strip("'")
+            cases.append(("closed-alias-argument-changed-%s-%s" % (gname, uname), local(text(a), text(b)), "reject"))
+            if gname == "record":
+                cases.append(("closed-alias-unchanged-%s" % uname, local(text(a), text(a)), "accept-clean"))
     for name, files, expect in cases:
         cdir = os.path.join(ctx.workdir, "cases", "fixed_" + name)
         shutil.rmtree(cdir, ignore_errors=True)
